@@ -456,7 +456,7 @@ func implPipe(h caseHead, raw []byte) map[string]any {
 }
 
 // fuzz: any input through any entry point must give a report or an error
-func implFuzz(h caseHead, raw []byte) map[string]any {
+func implFuzzOnce(h caseHead, raw []byte) map[string]any {
 	var ph pipeHead
 	json.Unmarshal(raw, &ph)
 	var b64 struct {
@@ -527,6 +527,23 @@ func implFuzz(h caseHead, raw []byte) map[string]any {
 		res["err"] = r.err
 	case <-time.After(callDeadline(240)):
 		res["outcome"] = "timeout"
+	}
+	return res
+}
+
+// fuzz: ... and once more when the call answered with an error: what a call left behind must not turn the same call into a
+// panic, a hang or a success
+func implFuzz(h caseHead, raw []byte) map[string]any {
+	res := implFuzzOnce(h, raw)
+	if res["outcome"] == "err" {
+		again := implFuzzOnce(h, raw)
+		if again["outcome"] != "err" {
+			again["err"] = fmt.Sprintf("on the SECOND identical call (the first returned an error: %.120s): %v", fmt.Sprint(res["err"]), again["err"])
+			if again["outcome"] == "ok" {
+				again["outcome"] = "ok-after-error"
+			}
+			return again
+		}
 	}
 	return res
 }
@@ -745,6 +762,24 @@ func implC16(h caseHead, raw []byte) (res map[string]any) {
 		}
 		res["asKey"] = site("      " + yq(ch.Text) + ":\n        minCount: 1\n")
 		res["asComparison"] = site("      ex.p0:\n        lessThanProperty: " + yq(ch.Text) + "\n")
+		// ... and deeper in a formula: in the else part of a conditional, under a nested constraint, in an operand of `or`
+		deep := func(body string) (verdict string) {
+			verdict = "PANIC"
+			defer func() { recover() }()
+			_, err := verifhook.ParseProfile("profile: P\nprefixes:\n  ex: " + NS + "\nviolation:\n  - v\nvalidations:\n  v:\n    targetClass: ex.T\n    message: m\n" + body)
+			if err != nil {
+				return "REJECT"
+			}
+			return "ACCEPT"
+		}
+		pc := func(ind string) string {
+			return ind + "propertyConstraints:\n" + ind + "  " + yq(ch.Text) + ":\n" + ind + "    minCount: 1\n"
+		}
+		ok := func(ind string) string { return ind + "propertyConstraints:\n" + ind + "  ex.p0:\n" + ind + "    minCount: 1\n" }
+		res["asElse"] = deep("    if:\n" + ok("      ") + "    then:\n" + ok("      ") + "    else:\n" + pc("      "))
+		res["asThen"] = deep("    if:\n" + ok("      ") + "    then:\n" + pc("      "))
+		res["asOrOperand"] = deep("    or:\n      -\n" + ok("        ") + "      -\n" + pc("        "))
+		res["asNestedKey"] = deep("    propertyConstraints:\n      ex.p1:\n        nested:\n" + pc("          "))
 	}
 	if ch.Canon != "" {
 		if dc, err := verifhook.ParsePath(ch.Canon); err != nil {
@@ -948,14 +983,31 @@ func implC08(h caseHead, raw []byte) (res map[string]any) {
 		Via   string `json:"via"`
 	}
 	json.Unmarshal(raw, &dh)
-	var err error
-	switch dh.Via {
-	case "validate":
-		_, err = pkg.Validate(h.Profile, h.Data, dh.Debug, nil)
-	case "validate-cfg":
-		_, err = pkg.ValidateWithConfiguration(h.Profile, h.Data, dh.Debug, nil, fixedClock{}, rcOf(h))
-	default:
-		_, err = pkg.CompileProfile(h.Profile, dh.Debug, nil)
+	submit := func() (err error) {
+		switch dh.Via {
+		case "validate":
+			_, err = pkg.Validate(h.Profile, h.Data, dh.Debug, nil)
+		case "validate-cfg":
+			_, err = pkg.ValidateWithConfiguration(h.Profile, h.Data, dh.Debug, nil, fixedClock{}, rcOf(h))
+		default:
+			var c *regoPrepared
+			c, err = pkg.CompileProfile(h.Profile, dh.Debug, nil)
+			if err == nil && c == nil {
+				err = fmt.Errorf("nil compiled profile without an error")
+			}
+		}
+		return err
+	}
+	err := submit()
+	if err != nil {
+		// the verdict on a profile does not wear off: the same text submitted again is rejected again
+		if err2 := submit(); err2 == nil {
+			res["outcome"] = "accepted"
+			res["unsafeRejected"] = false
+			res["acceptedOnResubmission"] = true
+			res["err"] = firstLine(err.Error())
+			return res
+		}
 	}
 	if err == nil {
 		res["outcome"] = "accepted"
